@@ -199,6 +199,15 @@ Section Codec.
       let bps := dec_bps in
       map (fun j => (nthQ raws j - m, dec_dur_with bps j, dec_vel (p_vel (nth j P pdefault)))) (seq 0 (List.length so)).
   End Dec.
+
+  (* ----- consistency of ANY parameter array with a performance, as seen by the decoder:
+     timing_j + performed onset_j - (decoder's equivalent onset of j's score onset) -- one common
+     value for all notes iff the decoded onsets are the performed ones up to one shift ----- *)
+  Section Cons.
+    Variables (so sd po : list Q) (G : list (list nat)) (P : list params).
+    Definition cons_off (j : nat) : Q :=
+      p_timing (nth j P pdefault) + nthQ po j - dec_eq so sd G P (gidx G j).
+  End Cons.
 End Codec.
 
 (* instances that are rational: no normalisation, and beat_period_ratio *)
@@ -267,3 +276,61 @@ Definition swap (p : Q * Q) : Q * Q := (snd p, fst p).
 Definition stime_to_ptime (K : list (Q * Q)) : Q -> Q := lin_interp K.
 Definition ptime_to_stime (K : list (Q * Q)) : Q -> Q :=
   lin_interp (isort (qkey_leb fst) (map swap K)).
+
+(* ---------- normalisation columns as lists of rationals (what the correspondence evaluates) ----------
+   TEMPO_NORMALIZATION[...]["rescale"] on the columns of one score onset; logarithmic columns hold
+   2 ** column (exponentiated outside Q), so beat_period_log rescales by the identity and
+   beat_period_ratio_log like beat_period_ratio *)
+Definition rescale_n (norm : Z) (c : list Q) : Q :=
+  match norm, c with
+  | 0%Z, [b] => b
+  | 1%Z, [e] => e
+  | 2%Z, [r; m] => r * m
+  | 3%Z, [e; m] => e * m
+  | 4%Z, [z; m; s] => z * s + m
+  | _, _ => 0
+  end.
+(* decode_time: np.mean(structured_to_unstructured(parameters[names][uix]), axis=0) *)
+Definition colmean (rows : list (list Q)) : list Q :=
+  match rows with
+  | [] => []
+  | r :: _ => map (fun k => meanQ (map (fun row => nthQ row k) rows)) (seq 0 (List.length r))
+  end.
+(* the scale functions that are rational given their constants (mean mu, standard deviation s) *)
+Definition std_z (mu s x : Q) : Q := if Qeq_bool s 0 then 0 else (x - mu) / s.
+Definition scale_n (norm : Z) (mu s x : Q) : list Q :=
+  match norm with
+  | 0%Z => [x]
+  | 2%Z => [x / mu; mu]
+  | 4%Z => [std_z mu s x; mu; s]
+  | _ => []
+  end.
+
+(* ---------- snote_ids of to_matched_score, as a specification rather than a function ----------
+   the rows follow ANY order of the matches that is sorted by score onset, then pitch *)
+Definition key2 (sna : list srow) (m : nat * nat) : Z * Z :=
+  let r := nth (fst m) sna sdefault in (s_div r, s_pitch r).
+Definition lex2_leb (a b : Z * Z) : bool :=
+  match a, b with (a1, a2), (b1, b2) => (a1 <? b1)%Z || ((a1 =? b1)%Z && (a2 <=? b2)%Z) end.
+Definition pair_of (sna : list srow) (M : list (nat * nat)) (sid : Z) : nat * nat :=
+  match find (fun m => Z.eqb (s_id (nth (fst m) sna sdefault)) sid) M with
+  | Some m => m
+  | None => (List.length sna, O)
+  end.
+Definition pairs_by_ids (sna : list srow) (M : list (nat * nat)) (sids : list Z) : list (nat * nat) :=
+  map (pair_of sna M) sids.
+Fixpoint sorted_by {A} (leb : A -> A -> bool) (l : list A) : bool :=
+  match l with
+  | a :: (b :: _) as r => leb a b && sorted_by leb r
+  | _ => true
+  end.
+Definition pair_eqb (a b : nat * nat) : bool := Nat.eqb (fst a) (fst b) && Nat.eqb (snd a) (snd b).
+Definition pair_leb (a b : nat * nat) : bool :=
+  lex2_leb (Z.of_nat (fst a), Z.of_nat (snd a)) (Z.of_nat (fst b), Z.of_nat (snd b)).
+(* same pairs, whatever the order *)
+Definition perm_pairs (a b : list (nat * nat)) : bool :=
+  list_eqb pair_eqb (isort pair_leb a) (isort pair_leb b).
+Definition sids_ok (sna : list srow) (pna : list prow) (al : list al_entry) (sids : list Z) : bool :=
+  let M := matched_idx (map s_id sna) (map p_id pna) al in
+  let M' := pairs_by_ids sna M sids in
+  perm_pairs M' M && sorted_by (fun a b => lex2_leb (key2 sna a) (key2 sna b)) M'.
